@@ -1266,6 +1266,25 @@ fn generate(a: &Args, wrappers: bool) -> i32 {
         let o = if i % 3 == 0 { O::default() } else { O::random(&mut rng) };
         cx.case(if adversarial { "random_adversarial" } else { "random" }, &v, &o);
     }
+    // deep indentation: lines indented by far more than any fixed-size blank buffer (indent_step x depth around and
+    // beyond 64, 128, 256 columns), through every kind of nesting step
+    for (step, depth) in [(2usize, 31usize), (2, 33), (2, 70), (3, 22), (3, 45), (9, 8), (16, 5), (24, 3), (33, 2), (63, 2), (64, 2), (65, 2), (70, 2), (130, 3), (1, 66), (1, 140)] {
+        for kind in 0..4 {
+            let mut v = SV::Struct(vec![("x", SV::Int(1)), ("y", SV::Seq(vec![SV::Int(2), SV::Str("s".into())])), ("z", SV::Map(true, vec![(SV::Str("k".into()), SV::Bool(true))]))]);
+            if wrappers { v = SV::Struct(vec![("x", SV::Commented(Box::new(SV::Int(1)), "c".into())), ("y", SV::FlowSeq(Box::new(SV::Seq(vec![SV::Int(2)])))), ("z", SV::SpaceAfter(Box::new(SV::Str("s".into()))))]); }
+            for d in 0..depth {
+                v = match (kind + if kind == 3 { d } else { 0 }) % 4 {
+                    0 => SV::Struct(vec![("a", SV::Int(0)), ("n", v)]),
+                    1 => SV::Seq(vec![SV::Int(0), v]),
+                    2 => SV::Map(true, vec![(SV::Str("m".into()), v)]),
+                    _ => SV::StructVariant("V", vec![("f", v)]),
+                };
+            }
+            for compact in [false, true] {
+                cx.case("deep_indent", &v, &O { indent: step, compact, ..O::default() });
+            }
+        }
+    }
     // invalid option set
     cx.case("invalid_options", &SV::Int(1), &O { indent: 0, ..O::default() });
     let nt = cx.sink.stats.get("distinct_nontrivial").copied().unwrap_or(0);
